@@ -2,17 +2,17 @@ SPECIFICATION Spec
 CONSTANTS
   Seeds <- MCSeeds
   ScenariosOf <- MCScenariosOf
-  MaxRead = 2
+  MaxRead = 4
   KF_FastInvertSkipsStopLine = FALSE
   KF_ReaderByteCountIgnoresPartial = FALSE
-  MaxLines = 5
-  Bodies <- BodiesMX
-  CtxMax = 2
-  Terms = {"lf"}
+  MaxLines = 3
+  Bodies <- BodiesLen
+  CtxMax = 1
+  Terms = {"lf", "crlf"}
   Strats = {"reader", "slice"}
   Paths = {"slow", "fast"}
-  Caps = {2}
-  Flags = {"inv", "pass", "stopnm"}
+  Caps = {1, 2, 3, 5}
+  Flags = {"inv", "stopnm"}
   Bins = {"none"}
   PlanKinds = {}
 INVARIANTS BufInv ModelOK Emitted
